@@ -8,4 +8,5 @@ REGISTRY["C37"] = l2("C37", "c37_tpid", ["harness/l0/c37_tpid_shim.c"], ["harnes
            "(9 doublings of the array), epochs separated by a collective parsec_taskpool_sync_ids with concurrent lookups; MPI initialised or not (1 rank); "
            "per-identifier WGL linearizability + distinct identifiers + quiescent sweep of all identifiers + equal next identifier after sync; "
            "identifier 0 is only looked up with --knob id0=1",
-    quick=(60, 200000), thorough=(900, 20000000), engine="simcore-L0+L2")
+    quick=(60, 200000), thorough=(900, 20000000), engine="simcore-L0+L2",
+    knobs=_os.environ.get("C37_KNOBS", "").split())     # e.g. C37_KNOBS="id0=1" ./check C37: also look identifier 0 up (see the harness header)
